@@ -298,9 +298,10 @@ def build(s: dict, ch: Optional[dict] = None, rng: Optional[random.Random] = Non
         out = []
         for c in chunks:
             if ch["ignorable"] and rng.random() < ch["ignorable"]:
-                out.append(ase.RawChunk(rng.choice(IGNORABLE), bytes(rng.randrange(256) for _ in range(rng.randint(0, 12)))))
+                # payload sizes from nothing to several kilobytes (a 64 x 64 mask chunk has 539 bytes)
+                out.append(ase.RawChunk(rng.choice(IGNORABLE), bytes(rng.randrange(256) for _ in range(rng.choice([0, 1, 3, 12, 36, 127, 128, 129, 539, 4100])))))
             if ch["tails"] and rng.random() < ch["tails"] and not isinstance(c, ase.RawChunk):
-                c.tail = bytes(rng.randrange(256) for _ in range(rng.randint(1, 16)))
+                c.tail = bytes(rng.randrange(256) for _ in range(rng.choice([1, 2, 16, 16, 127, 128, 129, 300, 5000])))
             out.append(c)
         if ch["ignorable"] and rng.random() < ch["ignorable"]:
             out.append(ase.RawChunk(rng.choice(IGNORABLE), bytes(rng.randrange(256) for _ in range(rng.choice([0, 3, 20])))))
